@@ -41,10 +41,33 @@ for d, title, meta in rows:
         l = "obsolete (see note)"
     cases = (later[-1:] or other or first or [{"cases_until_verdict": ""}])[0]["cases_until_verdict"]
     out.append("| %s | %s | %s | %s | %s |" % (d, title, f, l, cases))
+# the regression sweep over all seeded regressions with the final machinery (tools/logs/final_sweep.txt)
+sw = {}
+try:
+    cur = None
+    for l in open(os.path.join(ROOT, "tools", "logs", "final_sweep.txt")):
+        m = re.match(r"== (C\d\d-m\d+)", l)
+        if m:
+            cur = m.group(1)
+            continue
+        m = re.match(r"C\d\d: exit=(\d+) ", l)
+        if m and cur and cur not in sw:
+            sw[cur] = int(m.group(1))
+except OSError:
+    pass
+if sw:
+    notc = sorted(k for k, v in sw.items() if v != 1)
+    out += ["", "**Regression sweep of the final machinery** (`tools/logs/final_sweep.txt`, every seeded regression against the quick tier of its own",
+            "property's check, all checks as committed): %d of %d caught; not caught by the own check: %s - exactly the regressions" % (
+                sum(1 for v in sw.values() if v == 1), len(sw), ", ".join(notc)),
+            "explained below (caught by a neighbouring check, obsolete after a repair, or outside what the property claims).", ""]
 out += ["", "%d of the %d were caught by the checks as they were when the regression arrived. Every miss pointed at a shape the generator did" % (first_caught, n),
         "not reach or an observation the oracle did not make; each was closed by widening the generator or the oracle (never by raising",
-        "case counts), after which all are caught - with eight exceptions that are explained in their `meta.json`:", "",
+        "case counts), after which all are caught - with nine exceptions that are explained in their `meta.json`:", "",
         "* **C12-m4** (a callback switches off the process-wide file restrictions) is outside what C12 quantifies over; it is caught by C16.",
+        "* **C04-m3** (comment lines recognised by the first comment character only) was caught by C04 through the heap overrun it provoked;",
+        "  that overrun turned out to be genuine defect RC22 reached by another route (fix e897c9d). Since the repair the mutation has no",
+        "  memory-safety effect; what remains (a comment line continues the previous value) is C05's subject and C05 catches it.",
         "* **C09-m6** is obsolete for the same reason as C16-m4: the scenario written to catch it exposed a genuine defect (fix 8fa01c8), and with",
         "  the repair the mutated line is dead code.",
         "* **C17-m8** (the extended getter no longer drops a trailing blank-only continuation line) is outside the generated domain: a",
